@@ -137,6 +137,19 @@ theorem persistent_fault_gives_up (base max fuel d : Nat) (hf : max < fuel) (hd 
   refine ⟨_, by simpa [outcome, schedule, hlast] using this, ?_⟩
   have := length_le max fuel 0 base 0; omega
 
+/-- **the abstraction `Ww.Model.Faults` uses, justified**: a retried operation fails if and only if the fault outlasts the budget -/
+theorem absorbed_iff_within_budget (base max fuel d : Nat) (hf : max < fuel) :
+    (∃ t k, outcome base max fuel d = .ok t k) ↔ d ≤ max := by
+  constructor
+  · intro ⟨t, k, h⟩
+    by_cases hd : d ≤ max
+    · exact hd
+    · obtain ⟨k', h', _⟩ := persistent_fault_gives_up base max fuel d hf (by omega)
+      rw [h'] at h; cases h
+  · intro hd
+    obtain ⟨t, k, h, _, _⟩ := transient_fault_absorbed base max fuel d hf hd
+    exact ⟨t, k, h⟩
+
 /-- the schedule of the CURRENT constants (pkg/retry/retry.go, regenerated): 50 ms base, 5 s budget ⇒ ten attempts at
     0, 50, 150, 300, 550, 950, 1600, 2650, 4350 ms and - cut down from 7100 - at 5000 ms -/
 theorem schedule_of_the_source :
